@@ -172,6 +172,18 @@ def step (_c : Cfg) (s : State) : Action → State
       | [] => s
   | .mDone => { s with main := .done }
 
+/-! ### abandoning the output: what the caller's own thread does, and the workers it leaves behind -/
+
+/-- the caller's `finally` block after `close()`: drain both queues, then return (no other thread is needed) -/
+def finishSeq (s : State) : List Action :=
+  .cAbandon :: (List.replicate s.inq.length .drainIn ++ List.replicate s.outq.length .drainOut ++ [.mDone])
+
+/-- a worker process parked on `in_queue.get()`: nothing to take and (the loader being stopped) nothing will come -/
+def parked (c : Cfg) (s : State) (w : Nat) : Bool :=
+  match s.ws[w]? with
+  | some (.run k [] none) => mayTake c k && s.inq.isEmpty
+  | _ => false
+
 /-! ### independence of steps (partial-order reduction of the schedule enumeration) -/
 
 /-- the worker lineage an action belongs to -/
